@@ -65,6 +65,8 @@ func c09Session(c *Ctx, server bool, pmd bool, fault string, k int, tag string) 
 	results := []int{}
 	ok := runWithTimeout(15*time.Second, func() {
 		defer func() { pan = recover() }()
+		r0 := rawSend(conn, sendOp{API: "broadcast", Opcode: 2, Slices: [][]byte{[]byte("to every subscriber")}})
+		results = append(results, r0)
 		r1 := rawSend(conn, sendOp{API: "message", Opcode: 1, Slices: [][]byte{[]byte("hello")}})
 		r2 := rawSend(conn, sendOp{API: "file", Opcode: 2, Reader: newChunkReader([][]byte{make([]byte, 131072), make([]byte, 131072), []byte("end")}, "sep")})
 		r3 := rawSend(conn, sendOp{API: "async", Opcode: 2, Slices: [][]byte{[]byte("async")}})
